@@ -156,7 +156,7 @@ class Client:
         result = headers.copy()
         if self.config.transport == TransportTypes.SOAP:
             result["content-type"] = "text/xml"
-            if self.config.soap_action:
+            if self.config.soap_action is not None:
                 result["SOAPAction"] = self.config.soap_action
         else:
             raise ClientValueError(
